@@ -142,8 +142,14 @@ class HttpPeer:
                     self._finish()
                     continue
                 early = self.world.sc.get("early") if self.world.sc else None
-                if early and self.cur.framing is not None:
-                    pass
+                if early and isinstance(self.cur.framing, int) and self.cur.framing > 0 and not self.world.tags.get("early_done"):
+                    # a server that answers as soon as it has seen the header block (e.g. 413 to an upload it does not want)
+                    # and keeps the connection: the body bytes that still arrive are consumed as that request's body
+                    self.world.tags["early_done"] = True
+                    self.early_answered = True
+                    self.world.log("early_response", None, (self.name, self.chan.sid, early.get("status", 413)))
+                    data, keep, _b = build_response({"k": "resp", "status": int(early.get("status", 413)), "reason": "Too Large", "body": "no"}, self.cur, -1)
+                    self.chan.peer_push(data, 0.0)
             if self.state == "body":
                 r = self.cur
                 if r.framing is None:
@@ -221,6 +227,9 @@ class HttpPeer:
             if not (spec.get("k", "resp") == "resp" and int(spec.get("status", 200)) == 200):
                 w.attempts.append(("other", "connect-refused", self.chan.sid, "CONNECT", spec.get("status")))
             self._connect(spec, r)
+            return
+        if getattr(self, "early_answered", False):
+            self.early_answered = False  # this request was answered before its body arrived
             return
         spec = w.next_exchange(self, r)
         self.respond(spec, r)
